@@ -95,12 +95,13 @@ theorem core_try_undo_correct (cf : Core.Config) (args : List Int) (pr : Core.CP
     (hwf : Core.wfProg pr = true) (hlen : args.length = pr.params.length)
     (fuel : Nat) (env' : Core.Env) (tr : List Ev) (res : Core.Res)
     (hex : Core.srcRun cf fuel args pr = some (env', tr, res))
-    (hck : res = .div0 → cf.checked = true)
+    (hck : res = .div0 ∨ res = .ovf → cf.checked = true)
+    (hpkF : res = .ovf → ∀ fd ∈ pr.funs, Core.pkS cf.w (Core.entryOff cf.w fd.params) fd.body < 256 ^ cf.w)
     (hroom : Core.pkS cf.w (Core.entryOff cf.w pr.params) pr.body ≤ Core.roomOf cf args) :
     ∃ mEnd, Exec (Sphinx.sphinx (Core.coreProg cf pr)) (Core.coreInit cf args pr) (tr ++ Core.terminalEvs res)
         ⟨Sphinx.tntPc (Core.progLen cf.checked pr), mEnd⟩ ∧
       ¬ Halts (Sphinx.sphinx (Core.coreProg cf pr)) (Core.coreInit cf args pr) :=
-  Core.core_correct cf args pr hw hB hSE hwf hlen fuel env' tr res hex hck hroom
+  Core.core_correct cf args pr hw hB hSE hwf hlen fuel env' tr res hex hck hpkF hroom
 
 /-- non-vacuity: a program whose try body prints `A`, assigns, is then defeated and undone: the
 committed output is `U` (handler) and `Y` (the assignment did not happen) -/
